@@ -954,7 +954,7 @@ def run(ctx, report):
     imm_decode_rule(ctx, R14, X, 'C01')
 
 
-def render_immediate_rule(ctx, R):
+def render_immediate_rule(ctx, R, sigil=False):
     """Shared with C03.D12.  The forms are those of the lifter model (operands as _dis builds them); the immediate is given three values and the method is interpreted from its source."""
     from ..liftforms import LifterModel
     from ..lifter import ModVal
@@ -1014,6 +1014,11 @@ def render_immediate_rule(ctx, R):
                     raise AnalysisError('x86_mn.__str__ is outside the evaluable subset on %s: %s' % (inst.key(), e))
                 n += 1
                 iid = 'render-imm:%s:%d:%s' % (inst.key(), k, fmt.split('_')[0])
+                if sigil and fmt.startswith('att') and len(ops) == 1 and inst.modifs.get(L.X.env['dtf']) and inst.modifs.get(L.X.env['bkf']) and '$' in texts[0]:
+                    # a direct branch names its destination: GNU as writes `jne 2` / `loop 2` / `call 2`, and rejects `loop $2`
+                    R.violation(iid + ':sigil', 'render-imm:sigil:%s' % inst.rowname, '%s is rendered %r in AT&T syntax: the destination of a direct branch is written without `$` '
+                                '(GNU as rejects the immediate form)' % (inst.key(), texts[0].strip()), where(arch, strm), witness='e2 02 is `loop 2`')
+                    continue
                 if len(set(texts)) == len(texts):
                     R.ok(iid, nontrivial=(n % 5 == 0), sample='%s: %s / %s' % (inst.key(), texts[0].strip(), texts[2].strip()))
                 else:
